@@ -117,7 +117,29 @@ def run(ctx, rep):
             fail(ra, ctx, g, wnode, f"{name} can escape Chart.from_file: raised in {wq}, reached through {' -> '.join(chain[:8])}; it is not one of "
                                     f"the documented errors")
     ra.inst(f"{R.sites} explicit raise site(s) examined on the parse path")
-    reach = cg.reachable([ENTRY])
+    # callables stored in module-level tables (e.g. the metadata field converters) are called through attributes the call graph
+    # cannot resolve: every lambda / function referenced from a module-level value of a parse-reachable module counts as reachable
+    table_roots = []
+    for m_ in ctx.prog.modules.values():
+        for name_ in m_.assigns:
+            try:
+                gv = ctx.ev.global_value(m_, name_)
+            except Exception:
+                continue
+            for t_ in subterms(gv):
+                if t_[0] == "closure" and (t_[1] in ctx.prog.lambdas or t_[1] in ctx.prog.functions):
+                    table_roots.append(t_[1])
+    for q_ in table_roots:
+        if q_ not in cg.funcs:
+            fi_ = ctx.prog.lambdas.get(q_) or ctx.prog.functions.get(q_)
+            cg.funcs[q_] = fi_
+            cg._build(fi_)
+    reach = cg.reachable([ENTRY] + table_roots)
+    for q_ in table_roots:
+        for name, (wq, wnode, chain) in sorted(R.may_raise(q_).items()):
+            ra.inst(f"may escape via table callable {q_}: {name}")
+            if not any(exc_is(ctx, name, d) for d in DOCUMENTED):
+                fail(ra, ctx, cg.funcs.get(wq) or ef, wnode, f"{name} can escape through the table callable {q_}")
     rb = rep.rule("A.assert", "no assert statement on the parse path", floor=1)
     n_as = 0
     import ast
